@@ -72,6 +72,10 @@ def run(chk: Check, model):
     chk.rule("C04.recv", "recv == max(sent + sampled delay, prev_recv); prev_recv := recv; (seq, recv) queued")
     chk.rule("C04.ts_max", "push_ts_max queues max(0, recv times of the messages the blocking step waits for)")
     chk.rule("C04.record", "AsyncStepRecord timing fields are fed from the same definitions")
+    chk.rule("C04.generator", "the graph generator follows the same law for the settings it supports (FREQUENCY, non-blocking): ts_start(0) = phase, ts_end = ts_start + "
+                              "sampled delay, ts_start(k+1) = max(ts_end, ts_start + 1/rate)")
+    from .c12 import rule_scan
+    rule_scan(chk, model, "C04.generator")
 
     # ---------------------------------------------------------------- push_scheduled_ts
     fi = model.func(f"{NODE}.push_scheduled_ts")
